@@ -36,6 +36,7 @@ type c16In struct {
 	Wire  string `json:"wire,omitempty"`  // the escaped attribute value as sent
 	Reply string `json:"reply,omitempty"` // name in c16Replies, or "write-fail"
 	Close bool   `json:"close,omitempty"` // server closes right after the reply (no probe)
+	Depth int    `json:"depth,omitempty"` // other:deep-delegation-*: nesting depth of the reply, generated when it is sent
 	// digest-seq / reconnect: the SAME Component value is used for every entry, in order
 	Sessions []c16Sess `json:"sessions,omitempty"`
 }
@@ -57,8 +58,12 @@ func init() { register(c16{}) }
 func (c16) ID() string    { return "C16" }
 func (c16) RunFn() string { return "run_C16" }
 func (c16) Workers() int  { return 64 }
+
+// Journal: a reply can bring the whole process down (fatal error: stack overflow in the
+// stanza decoder); the driver then finds the case among the ones in flight.
+func (c16) Journal() bool { return true }
 func (c16) Rule() string {
-	return "digest-seq cases: Component.handshake called 2-4 times on the SAME Component value with different (and repeated, empty) ids; reconnect cases: the SAME Component connects 2-4 times in a row (Connect/Resume) to the scripted server, a fresh escaped/non-ASCII/empty/1 kB stream id per connection, sessions ended by a TCP drop, a server-side stream close or Disconnect, optionally one refused handshake in between - the digest of every connection is compared; digest cases: random (id, secret) byte strings through Component.handshake (lengths 0..1100 incl. every SHA-1 padding boundary, XML-special, non-ASCII, NUL/0xff bytes); connect cases: Component.Connect against a scripted TCP server, id sent XML-escaped in the stream header (entities, numeric references, either quote, missing attribute, 1 kB), every reply kind (handshake forms, 25 stream-error conditions, 12 other packet kinds, unknown/malformed/closed), transport failures and a failing handshake write; distinct = distinct (kind, total length mod 64, block count, id class, header, pre, reply); non-trivial = digest of a non-empty input, a connect case that reaches the reply, or a sequence of at least two handshakes"
+	return "digest-seq cases: Component.handshake called 2-4 times on the SAME Component value with different (and repeated, empty) ids; reconnect cases: the SAME Component connects 2-4 times in a row (Connect/Resume) to the scripted server, a fresh escaped/non-ASCII/empty/1 kB stream id per connection, sessions ended by a TCP drop, a server-side stream close or Disconnect, optionally one refused handshake in between - the digest of every connection is compared; digest cases: random (id, secret) byte strings through Component.handshake (lengths 0..1100 incl. every SHA-1 padding boundary, XML-special, non-ASCII, NUL/0xff bytes); connect cases: Component.Connect against a scripted TCP server, id sent XML-escaped in the stream header (entities, numeric references, either quote, missing attribute, 1 kB), every reply kind (handshake forms, 25 stream-error conditions, 12 other packet kinds incl. a stanza whose delegation/forwarded payload is nested 3 to 300 000 levels deep, unknown/malformed/closed), transport failures and a failing handshake write; distinct = distinct (kind, total length mod 64, block count, id class, header, pre, reply); non-trivial = digest of a non-empty input, a connect case that reaches the reply, or a sequence of at least two handshakes"
 }
 
 // ---------------------------------------------------------------- replies
@@ -113,6 +118,9 @@ func buildC16Replies() []c16Reply {
 		c16Reply{"other:sm-a", "<a xmlns='urn:xmpp:sm:3' h='1'/>", other(9), true},
 		c16Reply{"other:sm-resumed", "<resumed xmlns='urn:xmpp:sm:3' previd='p' h='1'/>", other(10), true},
 		c16Reply{"other:sm-failed", "<failed xmlns='urn:xmpp:sm:3'/>", other(11), true},
+		// a stanza whose XEP-0355 delegation/forwarded payload wraps a stanza that again carries one, c16In.Depth levels deep
+		c16Reply{"other:deep-delegation-message", "", other(1), true},
+		c16Reply{"other:deep-delegation-iq", "", other(3), true},
 		c16Reply{"other:stream-close", "</stream:stream>", other(12), false},
 		// NextPacket errors
 		c16Reply{"unknown-ns", "<ok xmlns='urn:example:unknown'/>", rerr, true},
@@ -134,6 +142,14 @@ func buildC16Replies() []c16Reply {
 		c16Reply{"close", "", rerr, false},
 	)
 	return rs
+}
+
+// c16DeepReply: <kind><delegation><forwarded> repeated depth times, then closed again
+// (about 90 bytes per level; built when it is sent, never stored in a case file).
+func c16DeepReply(kind string, depth int) string {
+	open := "<" + kind + " from='x@y' to='comp.localhost'><delegation xmlns='urn:xmpp:delegation:1'><forwarded xmlns='urn:xmpp:forward:0'>"
+	cl := "</forwarded></delegation></" + kind + ">"
+	return strings.Repeat(open, depth) + strings.Repeat(cl, depth)
 }
 
 func c16ReplyByName(n string) (c16Reply, bool) {
@@ -322,8 +338,17 @@ func (c16) Gen(r *rand.Rand, tier string) []interface{} {
 	}
 	// every reply once with a plain id, every transport failure once
 	for _, rp := range c16Replies {
-		conn(c16In{ID: []byte("4f2a&<1>"), Wire: "4f2a&amp;&lt;1&gt;", Secret: []byte("mypass"), Reply: rp.name})
+		d := 0
+		if strings.HasPrefix(rp.name, "other:deep-delegation-") {
+			d = 3
+		}
+		conn(c16In{ID: []byte("4f2a&<1>"), Wire: "4f2a&amp;&lt;1&gt;", Secret: []byte("mypass"), Reply: rp.name, Depth: d})
 	}
+	// the same reply, shallow (control) and deep enough to exhaust a goroutine stack if the
+	// decoder recurses per level (200 000 levels need more than the 1 GB limit)
+	conn(c16In{ID: []byte("77"), Wire: "77", Secret: []byte("mypass"), Reply: "other:deep-delegation-message", Depth: 1000})
+	conn(c16In{ID: []byte("77"), Wire: "77", Secret: []byte("mypass"), Reply: "other:deep-delegation-message", Depth: 300000})
+	conn(c16In{ID: []byte("77"), Wire: "77", Secret: []byte("mypass"), Reply: "other:deep-delegation-iq", Depth: 300000})
 	conn(c16In{ID: []byte("77"), Wire: "77", Secret: []byte("mypass"), Reply: "write-fail"})
 	conn(c16In{ID: []byte{}, Secret: []byte("mypass"), Pre: "ws", Reply: "handshake"})
 	conn(c16In{ID: []byte{}, Secret: []byte("mypass"), Pre: "refused", Reply: "handshake"})
@@ -353,6 +378,9 @@ func (c16) Gen(r *rand.Rand, tier string) []interface{} {
 		case c < 18:
 			rp := c16Replies[r.Intn(len(c16Replies))]
 			in.Reply = rp.name
+			if strings.HasPrefix(rp.name, "other:deep-delegation-") {
+				in.Depth = 1 + r.Intn(40)
+			}
 			in.Close = rp.abs.L[0].Z != 0 && r.Intn(4) == 0
 		case c < 19:
 			in.Reply = "write-fail"
@@ -483,11 +511,11 @@ func c16Header(in c16In) (prolog, rest string) {
 type c16Srv struct {
 	accepted     bool
 	gotOpen      bool
-	text         string // character data of the component's <handshake> element
-	gotText      bool   // the component sent a complete first element
-	hungUp       bool   // the accepted connection was closed by the peer before any stream header
-	notHandshake string // set when that element is not a childless jabber:component:accept handshake
-	note         string // "" or a timeout/error marker that must not occur in a sound run
+	text         string   // character data of the component's <handshake> element
+	gotText      bool     // the component sent a complete first element
+	dismissed    []string // connections that did not open a component stream (why)
+	notHandshake string   // set when that element is not a childless jabber:component:accept handshake
+	note         string   // "" or a timeout/error marker that must not occur in a sound run
 	probeSent    bool
 }
 
@@ -517,6 +545,15 @@ func c16NextStart(conn net.Conn, d *xml.Decoder, deadline time.Time) (se xml.Sta
 			}
 		}
 	}
+}
+
+func c16Attr(se xml.StartElement, local string) string {
+	for _, a := range se.Attr {
+		if a.Name.Space == "" && a.Name.Local == local {
+			return a.Value
+		}
+	}
+	return ""
 }
 
 // c16ElementText reads up to the end of the element just opened: its direct character
@@ -567,29 +604,39 @@ func c16AwaitStreamEnd(conn net.Conn, d *xml.Decoder, deadline time.Time) bool {
 // end (may be nil) lets Run decide how a session that stays open is ended.
 func c16Serve(ln net.Listener, in c16In, atProlog <-chan struct{}, released chan<- struct{}, res *c16Srv, done chan<- struct{}, end <-chan string) {
 	defer close(done)
-	if tl, ok := ln.(*net.TCPListener); ok {
-		tl.SetDeadline(time.Now().Add(c16Wait))
-	}
-	conn, err := ln.Accept()
-	if err != nil {
-		return
-	}
-	defer conn.Close()
-	res.accepted = true
+	// Accept until a connection presents a component stream header.  Anything else (a
+	// connection that hangs up at once, another check's client that found this port) is not
+	// the component of this case: it is dismissed and counted, never judged.
 	deadline := time.Now().Add(c16Wait)
-	dec := xml.NewDecoder(conn)
-	if open, _, _, ok := c16NextStart(conn, dec, deadline); !ok || open.Name.Space != c16NSStream || open.Name.Local != "stream" {
-		res.note = "server: no stream header from the component"
+	var conn net.Conn
+	var dec *xml.Decoder
+	for {
+		if tl, ok := ln.(*net.TCPListener); ok {
+			tl.SetDeadline(deadline)
+		}
+		cn, err := ln.Accept()
+		if err != nil {
+			return // no component ever connected (refused / dial failed / listener closed by Run)
+		}
+		res.accepted = true
+		d := xml.NewDecoder(cn)
+		open, _, _, ok := c16NextStart(cn, d, deadline)
+		if ok && open.Name.Space == c16NSStream && open.Name.Local == "stream" && c16Attr(open, "xmlns") == c16NSComponent {
+			conn, dec = cn, d
+			break
+		}
+		why := "another element or namespace"
 		if !ok {
-			// what the read ended with (EOF: the peer connected and hung up; timeout: it stayed silent)
-			conn.SetReadDeadline(time.Now().Add(50 * time.Millisecond))
-			if _, err := dec.Token(); err != nil {
-				res.note += " (" + err.Error() + ")"
-				res.hungUp = err == io.EOF || strings.Contains(err.Error(), "EOF")
+			cn.SetReadDeadline(time.Now().Add(50 * time.Millisecond))
+			if _, err := d.Token(); err != nil {
+				why = err.Error()
 			}
 		}
-		return
+		cn.Close()
+		hist("connect:foreign-connection-dismissed")
+		res.dismissed = append(res.dismissed, why)
 	}
+	defer conn.Close()
 	res.gotOpen = true
 	if strings.HasPrefix(in.Pre, "badheader:") {
 		for _, v := range c16BadHeaders {
@@ -651,6 +698,10 @@ func c16Serve(ln net.Listener, in c16In, atProlog <-chan struct{}, released chan
 	}
 	rp, _ := c16ReplyByName(in.Reply)
 	out := rp.wire
+	if strings.HasPrefix(in.Reply, "other:deep-delegation-") {
+		out = c16DeepReply(strings.TrimPrefix(in.Reply, "other:deep-delegation-"), in.Depth)
+		conn.SetWriteDeadline(time.Now().Add(c16Wait))
+	}
 	if rp.open && !in.Close {
 		out += c16Probe
 		res.probeSent = true
@@ -1235,5 +1286,8 @@ func (c16) Key(inp interface{}) (string, bool) {
 	if escaped {
 		hist("connect:id-escaped-on-wire")
 	}
-	return fmt.Sprintf("c/%s/%s/%s/%s/%v/%v/%d", in.Pre, in.Hdr, cls, in.Reply, in.Close, escaped, total%64), in.Pre == "ok"
+	if in.Depth > 0 {
+		hist(fmt.Sprintf("connect:reply-depth-1e%d", len(fmt.Sprint(in.Depth))-1))
+	}
+	return fmt.Sprintf("c/%s/%s/%s/%s/%v/%v/%d/%d", in.Pre, in.Hdr, cls, in.Reply, in.Close, escaped, total%64, in.Depth), in.Pre == "ok"
 }
